@@ -463,7 +463,7 @@ class Grid(Combinator[List[List[T]]]):
         for y in range(height):
             d_flat += d[y]
 
-        tmp = seq_combinator.serialize(env, [d_flat], idx)
+        tmp = seq_combinator.serialize(env, [d_flat], 0)
         return tmp
 
     def deserialize(
